@@ -115,3 +115,190 @@ SPEC_REGIONS += [
     ('dot-guard-in-repeated-group', pat_guard_repeated, name_dot_inside_segment),
     ('star-before-star-group', pat_star_star_group, lambda sym, mode, ast, fi: None),
 ]
+
+
+def _nullable(nodes):
+    for n in nodes:
+        if n[0] in ('star', 'neg'):
+            continue
+        if n[0] == 'grp':
+            if n[1] in '?*':
+                continue
+            if any(_nullable(a) for a in n[2]):
+                continue
+            return False
+        return False
+    return True
+
+
+def pat_nullable_segment(mode, ast, fi):
+    return mode == 'gl' and any(it[0] == 'seg' and it[1] and it[1][0][0] in ('grp', 'neg') and _nullable(it[1]) for it in ast)
+
+
+def name_matched_through_empty_segment(sym, mode, ast, fi):
+    """Exactly the footprint of the listed defect: paths the spec accepts only if a segment pattern is allowed to match
+    an empty path segment (adjacent / leading / trailing separators)."""
+    import z3
+    from engine import speccheck, spec as S
+    exact = speccheck.is_exact(mode, ast)
+
+    def build(empty):
+        sp = S.Spec(sym, path=True, dot=fi['dot'], ci=fi['ci'], nodotdir=fi['nodotdir'], relaxed=not exact, empty_segments=empty)
+        return sp.path_full(ast, globstar=fi['globstar'], globstarlong=fi['globstarlong'], matchbase=fi['matchbase'],
+                            nodir=fi['nodir'], allow_abs_globstar=True)
+    return z3.And(build(True), z3.Not(build(False)))
+
+
+def pat_is_path(mode, ast, fi):
+    return mode == 'gl'
+
+
+def name_ends_with_newline(sym, mode, ast, fi):
+    import z3
+    return z3.Or(*[z3.And(sym.len_eq(L), sym.c[L - 1] == sym.cv(10)) for L in range(1, sym.N + 1)])
+
+
+SPEC_REGIONS += [
+    ('trailing-newline-dollar', pat_is_path, name_ends_with_newline),
+]
+
+
+def pat_nullable_start(mode, ast, fi):
+    """Some segment starts with a node that can match the empty string (a group, !(..) or *) and has a further node."""
+    for seg in _segments(mode, ast):
+        if len(seg) >= 2 and (seg[0][0] in ('star', 'neg') or (seg[0][0] == 'grp' and _nullable(seg[:1]))):
+            return True
+        if seg and seg[0][0] in ('grp', 'neg') and _inner_nullable_start(seg[0]):
+            return True
+    return False
+
+
+def _inner_nullable_start(g):
+    alts = g[2] if g[0] == 'grp' else g[1]
+    for a in alts:
+        if len(a) >= 2 and (a[0][0] in ('star', 'neg') or (a[0][0] == 'grp' and _nullable(a[:1]))):
+            return True
+        if a and a[0][0] in ('grp', 'neg') and _inner_nullable_start(a[0]):
+            return True
+    return False
+
+
+def name_static_guard_footprint(sym, mode, ast, fi):
+    """Footprint of the listed defect: names accepted when the start-of-segment guards are applied only to the
+    statically first node of a segment (as the parser does), minus the names the dot rule really allows."""
+    import z3
+    from engine import speccheck, spec as S
+    exact = speccheck.is_exact(mode, ast)
+
+    def build(static):
+        sp = S.Spec(sym, path=fi['path'], dot=fi['dot'], ci=fi['ci'], nodotdir=fi['nodotdir'], relaxed=not exact,
+                    static_guard=static)
+        if mode == 'fn':
+            return sp.name_full(ast)
+        return sp.path_full(ast, globstar=fi['globstar'], globstarlong=fi['globstarlong'], matchbase=fi['matchbase'],
+                            nodir=fi['nodir'], allow_abs_globstar=True)
+    return z3.And(build(True), z3.Not(build(False)))
+
+
+
+
+
+def _dot_not_plain(nodes, top=True):
+    """A written dot inside a group, or at top level after another node (so NODOTDIR's literal-dot analysis is skipped)."""
+    for k, n in enumerate(nodes):
+        if n[0] == 'lit' and n[1] == '.' and (not top or k > 0) and not all(x[0] == 'lit' and x[1] == '.' for x in nodes[:k]):
+            return True
+        if n[0] == 'lit' and n[1] == '.' and not top:
+            return True
+        if n[0] == 'grp' and any(_dot_not_plain(a, False) for a in n[2]):
+            return True
+        if n[0] == 'neg' and any(_dot_not_plain(a, False) for a in n[1]):
+            return True
+    return False
+
+
+def pat_nodotdir_dot_in_group(mode, ast, fi):
+    return mode == 'gl' and fi['nodotdir'] and any(_dot_not_plain(seg) for seg in _segments(mode, ast))
+
+
+def name_only_without_nodotdir(sym, mode, ast, fi):
+    import z3
+    from engine import speccheck, spec as S
+    exact = speccheck.is_exact(mode, ast)
+
+    def build(ndd):
+        sp = S.Spec(sym, path=True, dot=fi['dot'], ci=fi['ci'], nodotdir=ndd, relaxed=not exact)
+        return sp.path_full(ast, globstar=fi['globstar'], globstarlong=fi['globstarlong'], matchbase=fi['matchbase'],
+                            nodir=fi['nodir'], allow_abs_globstar=True)
+    return z3.And(build(False), z3.Not(build(True)))
+
+
+def pat_matchbase_single_globstar(mode, ast, fi):
+    if mode != 'gl' or not fi['matchbase']:
+        return False
+    units = [it for it in ast if it[0] != 'sep']
+    if len(units) != 1 or any(it[0] == 'sep' for it in ast):
+        return False
+    u = units[0]
+    n = u[1] if u[0] == 'gs' else (sum(x[1] for x in u[1]) if u[1] and all(x[0] == 'star' for x in u[1]) else 0)
+    return (n == 2) or (n == 3 and fi['globstarlong'])
+
+
+def name_any_hidden(sym, mode, ast, fi):
+    import z3
+    from engine import spec as S
+    alts = [S.some_hidden_segment(sym, True), z3.Not(z3.And(*S.no_dotdir_segments(sym)))]
+    return z3.Or(*alts)
+
+
+SPEC_REGIONS += [
+    ('matchbase-globstar-hidden', pat_matchbase_single_globstar, name_any_hidden),
+]
+
+
+def _alt_starts_with_dot(g):
+    alts = g[2] if g[0] == 'grp' else g[1]
+    for a in alts:
+        if a and a[0][0] == 'lit' and a[0][1] == '.':
+            return True
+        if a and a[0][0] in ('grp', 'neg') and _alt_starts_with_dot(a[0]):
+            return True
+    return False
+
+
+def _contains_neg(g):
+    if g[0] == 'neg':
+        return True
+    return any(n[0] in ('grp', 'neg') and _contains_neg(n) for a in g[2] for n in a)
+
+
+def pat_dotglob_neg_after_dot_alt(mode, ast, fi):
+    """DOTGLOB: a segment that starts with a group holding an alternative that begins with a written dot and a !(...):
+    match_dot_dir makes the negation's implicit star unguarded, so it matches the . and .. segments."""
+    if mode != 'gl' or not fi['dot'] or fi['nodotdir']:
+        return False
+    for seg in _segments(mode, ast):
+        if seg and seg[0][0] in ('grp', 'neg') and _alt_starts_with_dot(seg[0]) and _contains_neg(seg[0]):
+            return True
+    return False
+
+
+def name_has_dotdir_segment(sym, mode, ast, fi):
+    import z3
+    from engine import spec as S
+    return z3.Not(z3.And(*S.no_dotdir_segments(sym)))
+
+
+SPEC_REGIONS += [
+    ('dotglob-negation-after-dot-alternative', pat_dotglob_neg_after_dot_alt, name_has_dotdir_segment),
+]
+
+
+# Findings whose footprint is 'the implementation accepts what a sloppier reading of the pattern accepts': instead of a
+# name region they widen MAY by exactly that reading (all live ones together, so combinations are covered):
+#   (key, pattern predicate, Spec keyword overrides)
+RELAX_REGIONS = [
+    ('empty-segment-by-nullable-group', pat_nullable_segment, {'empty_segments': True}),
+    ('unguarded-wildcard-after-nullable-start', pat_nullable_start, {'static_guard': True}),
+    ('nodotdir-dot-in-group', pat_nodotdir_dot_in_group, {'nodotdir': False}),
+]
